@@ -29,9 +29,9 @@ structure Transn where
   equation  : Option Expr
 deriving Repr, BEq, Inhabited
 
-/-- A constructed `Event` object.  `rate = none` mirrors the `self.rate = rate`
-fall-through of the multi-transition branch when only a member transition
-carries the equation. -/
+/-- A constructed `Event` object (`rate` is an `Option` because the Python attribute can be `None`
+for an event without transitions and without a rate argument... which the constructor rejects; kept
+optional so that the model can express every object the constructor can return). -/
 structure Event where
   rate        : Option Expr
   transitions : List Transn
@@ -87,7 +87,8 @@ def mkEvent (trs : List Transn) (rate : Option Expr) : Except Err Event :=
     if nEq > 1 then .error .inputState
     else if nEq == 1 && rate.isSome then .error .inputState
     else if nEq == 0 && rate.isNone then .error .inputState
-    else .ok ⟨rate, trs⟩     -- `self.rate = rate`, also when nEq = 1 and rate = None
+    else if nEq == 1 then .ok ⟨(trs.filterMap (·.equation)).head?, trs⟩   -- the member's equation is the rate
+    else .ok ⟨rate, trs⟩
 
 /-- The definition held by a `BaseOdeModel` instance. -/
 structure ModelDef where
